@@ -2,7 +2,8 @@
 # usage: ./check.sh <ID> [quick|thorough]
 # Rebuilds the harness against /repo's current working tree (build tag verif)
 # and runs one property check. Exit 0 held / 1 violation / 2 broken or inconclusive.
-cd /verif || exit 2
+cd "$(dirname "$0")" || exit 2
+export VERIF_ROOT="$(pwd)"
 export GOFLAGS=-mod=mod GOPROXY=off GOSUMDB=off GOTOOLCHAIN=local
 ID="$1"
 [ -n "$2" ] && export VERIF_TIER="$2"
